@@ -32,14 +32,19 @@ pub struct Cmd { pub args: Vec<String>, pub env: Vec<(String, String)>, pub stdi
     /// standard input redirected from this (regular) file instead of a pipe
     pub stdin_file: Option<String>,
     /// a named pipe created at this path before the spawn and fed with these bytes once the child opens it
-    pub fifo: Option<(String, Vec<u8>)> }
+    pub fifo: Option<(String, Vec<u8>)>,
+    /// where standard output goes: a pipe (default), a regular file, or a pseudo-terminal (the program then sees a tty)
+    pub stdout_to: StdoutTo }
+#[derive(Clone, Copy, Debug, Default, PartialEq, Eq)]
+pub enum StdoutTo { #[default] Pipe, File, Terminal }
 impl Cmd {
-    pub fn new(args: &[&str]) -> Cmd { Cmd { args: args.iter().map(|s| s.to_string()).collect(), env: vec![], stdin: None, timeout_s: 20, stdin_file: None, fifo: None } }
+    pub fn new(args: &[&str]) -> Cmd { Cmd { args: args.iter().map(|s| s.to_string()).collect(), env: vec![], stdin: None, timeout_s: 20, stdin_file: None, fifo: None, stdout_to: StdoutTo::Pipe } }
     pub fn arg(mut self, a: &str) -> Cmd { self.args.push(a.into()); self }
     pub fn env(mut self, k: &str, v: &str) -> Cmd { self.env.push((k.into(), v.into())); self }
     pub fn stdin(mut self, b: &[u8]) -> Cmd { self.stdin = Some(b.to_vec()); self }
     pub fn timeout(mut self, s: u64) -> Cmd { self.timeout_s = s; self }
     pub fn stdin_from_file(mut self, path: &str) -> Cmd { self.stdin_file = Some(path.into()); self }
+    pub fn stdout_to(mut self, t: StdoutTo) -> Cmd { self.stdout_to = t; self }
     pub fn fifo(mut self, path: &str, data: &[u8]) -> Cmd { self.fifo = Some((path.into(), data.to_vec())); self }
     pub fn run(&self, b: Build) -> Run {
         let t0 = Instant::now();
@@ -60,11 +65,27 @@ impl Cmd {
         // the child must never outlive the harness (a watchdog exit or a killed harness would otherwise leave endless
         // vanity searches behind): ask the kernel to SIGKILL it when its parent dies
         unsafe { use std::os::unix::process::CommandExt; c.pre_exec(|| { extern "C" { fn prctl(option: i32, arg2: u64, arg3: u64, arg4: u64, arg5: u64) -> i32; } prctl(1 /* PR_SET_PDEATHSIG */, 9 /* SIGKILL */, 0, 0, 0); Ok(()) }); }
+        // standard output to a regular file or to a pseudo-terminal instead of the pipe
+        let mut out_file: Option<String> = None; let mut pty_master: Option<std::fs::File> = None;
+        match self.stdout_to {
+            StdoutTo::Pipe => {}
+            StdoutTo::File => { let p = scratch_file("stdout", std::time::SystemTime::now().duration_since(std::time::UNIX_EPOCH).map(|d| d.as_nanos() as u64).unwrap_or(0), "out", b""); c.stdout(Stdio::from(std::fs::OpenOptions::new().write(true).truncate(true).open(&p).expect("open stdout file"))); out_file = Some(p); }
+            StdoutTo::Terminal => { use std::os::unix::io::FromRawFd;
+                extern "C" { fn posix_openpt(flags: i32) -> i32; fn grantpt(fd: i32) -> i32; fn unlockpt(fd: i32) -> i32; fn ptsname_r(fd: i32, buf: *mut std::os::raw::c_char, len: usize) -> i32; }
+                let m = unsafe { posix_openpt(0o2 | 0o400) }; assert!(m >= 0, "posix_openpt"); // O_RDWR | O_NOCTTY
+                assert_eq!(unsafe { grantpt(m) }, 0, "grantpt"); assert_eq!(unsafe { unlockpt(m) }, 0, "unlockpt");
+                let mut name = [0 as std::os::raw::c_char; 128]; assert_eq!(unsafe { ptsname_r(m, name.as_mut_ptr(), name.len()) }, 0, "ptsname_r");
+                let path = unsafe { std::ffi::CStr::from_ptr(name.as_ptr()) }.to_string_lossy().into_owned();
+                let slave = std::fs::OpenOptions::new().read(true).write(true).open(&path).expect("open pty slave");
+                c.stdout(Stdio::from(slave)); pty_master = Some(unsafe { std::fs::File::from_raw_fd(m) }); }
+        }
         let mut child = c.spawn().expect("spawn hdwallet");
+        drop(c); // closes the harness's copies of the file / pty slave handed to the child
         let mut si = child.stdin.take(); let data = self.stdin.clone();
         let w = std::thread::spawn(move || { if let (Some(mut si), Some(d)) = (si.take(), data) { let _ = si.write_all(&d); } });
-        let mut so = child.stdout.take().unwrap(); let mut se = child.stderr.take().unwrap();
-        let ro = std::thread::spawn(move || { let mut v = Vec::new(); let _ = so.read_to_end(&mut v); v });
+        let so = child.stdout.take(); let mut se = child.stderr.take().unwrap();
+        // from a terminal, read until the last writer is gone (EIO); the line discipline turns LF into CR LF, which is undone
+        let ro = std::thread::spawn(move || { let mut v = Vec::new(); if let Some(mut so) = so { let _ = so.read_to_end(&mut v); } else if let Some(mut m) = pty_master { let mut buf = [0u8; 4096]; loop { match m.read(&mut buf) { Ok(0) | Err(_) => break, Ok(n) => v.extend_from_slice(&buf[..n]) } } let mut w = Vec::with_capacity(v.len()); let mut i = 0; while i < v.len() { if v[i] == b'\r' && i + 1 < v.len() && v[i + 1] == b'\n' { i += 1; continue; } w.push(v[i]); i += 1; } v = w; } v });
         let re = std::thread::spawn(move || { let mut v = Vec::new(); let _ = se.read_to_end(&mut v); v });
         let status = match child.wait_timeout(Duration::from_secs(self.timeout_s)).expect("wait") {
             Some(st) => { use std::os::unix::process::ExitStatusExt; match st.code() { Some(c) => Status::Exit(c), None => Status::Signal(st.signal().unwrap_or(0)) } }
@@ -72,7 +93,9 @@ impl Cmd {
         };
         let _ = w.join();
         done.store(true, std::sync::atomic::Ordering::Relaxed); if let Some(h) = feeder { let _ = h.join(); } if let Some((path, _)) = &self.fifo { let _ = std::fs::remove_file(path); }
-        Run { status, stdout: ro.join().unwrap_or_default(), stderr: String::from_utf8_lossy(&re.join().unwrap_or_default()).into_owned(), wall_ms: t0.elapsed().as_millis() }
+        let mut captured = ro.join().unwrap_or_default();
+        if let Some(p) = out_file { captured = std::fs::read(&p).unwrap_or_default(); let _ = std::fs::remove_file(&p); }
+        Run { status, stdout: captured, stderr: String::from_utf8_lossy(&re.join().unwrap_or_default()).into_owned(), wall_ms: t0.elapsed().as_millis() }
     }
     pub fn shown(&self) -> String { format!("hdwallet {}{}{}", self.args.iter().map(|a| if a.chars().all(|c| c.is_ascii_alphanumeric() || "-_/.'=:".contains(c)) && !a.is_empty() { a.clone() } else { format!("{a:?}") }).collect::<Vec<_>>().join(" "),
         if self.env.is_empty() { String::new() } else { format!("  [env {}]", self.env.iter().map(|(k, v)| format!("{k}={:?}", trunc(v, 120))).collect::<Vec<_>>().join(" ")) },
